@@ -237,9 +237,21 @@ func (g *G) jsonDoc(depth int, sb *strings.Builder) {
 			case 0:
 				sb.WriteString([]string{`\n`, `\"`, `\\`, `\/`, `\b`, `\f`, `\r`, `\t`}[g.intn(8)])
 			case 1:
-				sb.WriteString(fmt.Sprintf(`\u%04x`, g.intn(0x10000)))
+				// either case of the hex digits, and mixed
+				switch g.intn(3) {
+				case 0:
+					sb.WriteString(fmt.Sprintf(`\u%04x`, g.intn(0x10000)))
+				case 1:
+					sb.WriteString(fmt.Sprintf(`\u%04X`, g.intn(0x10000)))
+				default:
+					sb.WriteString(fmt.Sprintf(`\u%02x%02X`, g.intn(0x100), g.intn(0x100)))
+				}
 			case 2:
-				sb.WriteString(fmt.Sprintf(`\ud8%02x\udc%02x`, g.intn(4)*64+g.intn(64), g.intn(256)))
+				if g.chance(0.5) {
+					sb.WriteString(fmt.Sprintf(`\ud8%02x\udc%02x`, g.intn(4)*64+g.intn(64), g.intn(256)))
+				} else {
+					sb.WriteString(fmt.Sprintf(`\uD8%02X\uDC%02X`, g.intn(4)*64+g.intn(64), g.intn(256)))
+				}
 			case 3:
 				sb.WriteString(string(rune(0x80 + g.intn(0x2000))))
 			case 4:
